@@ -100,8 +100,13 @@ theorem run_accumulates {c : Cfg} (w : WF c) (i lo hi m : Nat) (sh : Nat → Boo
     Done c i lo hi (runFilter c ts (qlen - c.k + 1) qlen) :=
   run_complete w i lo hi m sh tstar ts qlen hk2 hkt hq hqe hs he hthr hm1 hD hband hhiq hhi
 
-/-- **C14, the property** (for the model of the repaired code): for any target (invalid letters
-    allowed) and any query over the four-letter alphabet (either case), any supported word size `k`
+/-- **C14, the property** (for the model of the repaired code): for any target and any query —
+    the property is stated for sequences over the four-letter alphabet (either case); since the
+    ticker follows the query position (`Rule.tickByPosition`, fix `0c69d0c`) the theorem no longer
+    needs that: letters outside the alphabet are allowed in both sequences and count as mismatches
+    in `EpsMatch`, so every window pair with at most `e` columns that differ *or* hold such a letter
+    is covered (the first-wave hypothesis `AllValid lk q` is gone; `filter_incomplete_ticker` shows
+    it was needed for the callback-counting ticker) —, any supported word size `k`
     (`MinKmerLen ≤ k ≤ MaxKmerLen`, target of at least `k+1` letters), match length `n`, error bound
     `e` and tube offset `off ≥ max e 1` whose q-gram threshold `n + 1 - k(e+1)` is positive: the index
     is built, and whenever `Filter` returns its hits, every pair of length-`n` windows differing by at
@@ -111,7 +116,7 @@ theorem run_accumulates {c : Cfg} (w : WF c) (i lo hi m : Nat) (sh : Nat → Boo
     against `filter.Filter`; the rule is the one regenerated from the source (`rule_tie`). -/
 theorem filter_complete {lk : Lookup} (hlk : FourLetter lk) (t q : List UInt8) (k n e off : Nat)
     (selfAlign : Bool) (hk : Biogo.Kmer.minKmerLen ≤ k) (hk' : k ≤ Biogo.Kmer.maxKmerLen)
-    (ht : k + 1 ≤ t.length) (hq : AllValid lk q)
+    (ht : k + 1 ≤ t.length)
     (hthr : 0 < minWordsPerFilterHit n k e) (he : e ≤ off) (hoff : 1 ≤ off) :
     (∃ ix0, Biogo.Kmer.new lk 4 k t = .ok ix0 ∧ Biogo.Kmer.build lk ix0 = builtIndex lk k t) ∧
     ∀ hits, filter Biogo.Generated.FilterFacts.rule lk (builtIndex lk k t)
@@ -126,7 +131,7 @@ theorem filter_complete {lk : Lookup} (hlk : FourLetter lk) (t q : List UInt8) (
     rw [if_neg (by omega), if_neg (by omega), if_neg (by omega), if_neg (by omega)]
   · intro hits hf a b hm hreq
     rw [rule_tie] at hf
-    obtain ⟨hits', hf', hcov⟩ := filter_complete_aux hlk t q k n e off selfAlign false hk1.1 hk1.2 (by omega) hq hthr he hoff a b hm hreq
+    obtain ⟨hits', hf', hcov⟩ := filter_complete_aux hlk t q k n e off selfAlign false hk1.1 hk1.2 (by omega) hthr he hoff a b hm hreq
     rw [hf] at hf'
     cases hf'
     exact hcov
@@ -142,7 +147,7 @@ theorem filter_complete {lk : Lookup} (hlk : FourLetter lk) (t q : List UInt8) (
     repeat with disjoint arms is found, once. -/
 theorem filter_complete_complement {lk : Lookup} (hlk : FourLetter lk) (t q : List UInt8) (k n e off : Nat)
     (selfAlign : Bool) (hk : Biogo.Kmer.minKmerLen ≤ k) (hk' : k ≤ Biogo.Kmer.maxKmerLen)
-    (ht : k + 1 ≤ t.length) (hq : AllValid lk q)
+    (ht : k + 1 ≤ t.length)
     (hthr : 0 < minWordsPerFilterHit n k e) (he : e ≤ off) (hoff : 1 ≤ off) :
     ∀ hits, filter Biogo.Generated.FilterFacts.rule lk (builtIndex lk k t)
         { minMatch := n, maxError := e, tubeOffset := off } q selfAlign true = .ok hits →
@@ -157,7 +162,7 @@ theorem filter_complete_complement {lk : Lookup} (hlk : FourLetter lk) (t q : Li
     cases selfAlign with
     | false => rfl
     | true => simpa using hreq rfl
-  obtain ⟨hits', hf', hcov⟩ := filter_complete_aux hlk t q k n e off selfAlign true hk1.1 hk1.2 (by omega) hq hthr he hoff a b hm hreq'
+  obtain ⟨hits', hf', hcov⟩ := filter_complete_aux hlk t q k n e off selfAlign true hk1.1 hk1.2 (by omega) hthr he hoff a b hm hreq'
   rw [hf] at hf'
   cases hf'
   exact hcov
@@ -167,7 +172,7 @@ theorem filter_complete_complement {lk : Lookup} (hlk : FourLetter lk) (t q : Li
     (`requiredC`) is covered. -/
 theorem filter_complete_strand {lk : Lookup} (hlk : FourLetter lk) (t q : List UInt8) (k n e off : Nat)
     (selfAlign complement : Bool) (hk : Biogo.Kmer.minKmerLen ≤ k) (hk' : k ≤ Biogo.Kmer.maxKmerLen)
-    (ht : k + 1 ≤ t.length) (hq : AllValid lk q)
+    (ht : k + 1 ≤ t.length)
     (hthr : 0 < minWordsPerFilterHit n k e) (he : e ≤ off) (hoff : 1 ≤ off) :
     ∀ hits, filter Biogo.Generated.FilterFacts.rule lk (builtIndex lk k t)
         { minMatch := n, maxError := e, tubeOffset := off } q selfAlign complement = .ok hits →
@@ -177,7 +182,7 @@ theorem filter_complete_strand {lk : Lookup} (hlk : FourLetter lk) (t q : List U
     unfold Biogo.Kmer.minKmerLen at hk; unfold Biogo.Kmer.maxKmerLen at hk'; unfold Biogo.Kmer.wordBits; omega
   intro hits hf a b hm hreq
   rw [rule_tie] at hf
-  obtain ⟨hits', hf', hcov⟩ := filter_complete_aux hlk t q k n e off selfAlign complement hk1.1 hk1.2 (by omega) hq hthr he hoff a b hm hreq
+  obtain ⟨hits', hf', hcov⟩ := filter_complete_aux hlk t q k n e off selfAlign complement hk1.1 hk1.2 (by omega) hthr he hoff a b hm hreq
   rw [hf] at hf'
   cases hf'
   exact hcov
@@ -209,6 +214,20 @@ theorem filter_incomplete_pinned :
 theorem filter_incomplete_flush :
     EpsMatch dna [99, 97, 97, 99, 99] [97, 99, 97, 97, 99, 97, 97, 97, 99, 97] 4 0 0 1 ∧
     misses { retireSubMaxError := true, flushFromLastTick := false } 4 4 0 2 [99, 97, 97, 99, 99] [97, 99, 97, 97, 99, 97, 97, 97, 99, 97] 0 1 = true := by
+  decide +kernel
+
+/-- `filter_incomplete` (ticker; outside the quantifier of C14, which is stated over A,C,G,T): with
+    the callback-counting ticker of the first wave (`tickByPosition := false`, both other repairs in
+    place) a query with letters outside the alphabet loses matches — `k=4 n=7 e=0 off=5`, target
+    `cttacta`, query `cttactaaaacnn`: the two last windows get no callback, the tick that retires
+    tube 1 never comes, the final flush starts beyond it and reports the run of the exact match at
+    `a=0 b=0` under the aliased index 4 (the `fln` witness of `corpus/C14.txt`, shrunk). -/
+theorem filter_incomplete_ticker :
+    EpsMatch dna [99, 116, 116, 97, 99, 116, 97] [99, 116, 116, 97, 99, 116, 97, 97, 97, 97, 99, 110, 110] 7 0 0 0 ∧
+    misses { retireSubMaxError := true, flushFromLastTick := true, tickByPosition := false } 4 7 0 5
+      [99, 116, 116, 97, 99, 116, 97] [99, 116, 116, 97, 99, 116, 97, 97, 97, 97, 99, 110, 110] 0 0 = true ∧
+    misses repaired 4 7 0 5
+      [99, 116, 116, 97, 99, 116, 97] [99, 116, 116, 97, 99, 116, 97, 97, 97, 97, 99, 110, 110] 0 0 = false := by
   decide +kernel
 
 -- the same two inputs are covered under the repaired rule (as `filter_complete` says they must be)
